@@ -208,6 +208,79 @@ def _fmt_arg(x):
     return None, ()
 
 
+class _NotAFormat(Exception):
+    pass
+
+
+def _pieces(x):
+    """What string a value denotes, as a list of pieces: ('lit', text) | ('num', format spec, term) | ('str', id of an
+    opaque string).  Nested `.format` results are spliced in, so that the SAME string built in two steps (a name
+    formatted first, then put into the path) has the same pieces.  Anything else (concatenation, os.path.join, %,
+    f-strings the executor keeps opaque): _NotAFormat -- the clause is then undecided, not false."""
+    import string
+    from sedvc.sym import Sc as _Sc
+    if isinstance(x, str):
+        return [('lit', x)]
+    if isinstance(x, Opaque) and x.tag == 'str':
+        return [('str', repr(x.info))]
+    if not (isinstance(x, Opaque) and x.tag == 'format'):
+        raise _NotAFormat(repr(x))
+    tmpl, args = x.info
+    out, auto = [], 0
+    for lit, field, spec, conv in string.Formatter().parse(tmpl):
+        if lit:
+            out.append(('lit', lit))
+        if field is None:
+            continue
+        if conv:
+            raise _NotAFormat('conversion !%s' % conv)
+        if field == '':
+            k, auto = auto, auto + 1
+        elif field.isdigit():
+            k = int(field)
+        else:
+            raise _NotAFormat('field %r' % field)
+        if k >= len(args):
+            raise _NotAFormat('missing argument')
+        a = args[k]
+        if isinstance(a, (str, Opaque)):
+            if spec not in ('', 's'):
+                raise _NotAFormat('string formatted with %r' % spec)
+            out.extend(_pieces(a))
+        elif isinstance(a, (_Sc, int)) and not isinstance(a, bool):
+            out.append(('num', spec or '', a))
+        else:
+            raise _NotAFormat(repr(a))
+    merged = []
+    for pc in out:
+        if merged and pc[0] == 'lit' and merged[-1][0] == 'lit':
+            merged[-1] = ('lit', merged[-1][1] + pc[1])
+        else:
+            merged.append(pc)
+    return merged
+
+
+def _same_string(x, expected):
+    """x denotes the string described by `expected` (pieces): True / False, or a Stale clause when x is built in a
+    way the pieces cannot express."""
+    from sedvc.sym import Stale
+    try:
+        got = _pieces(x)
+    except _NotAFormat as e:
+        return Stale('the file name is built in a way the contract cannot read (%s)' % e)
+    if len(got) != len(expected):
+        return False
+    for g, w in zip(got, expected):
+        if g[0] != w[0]:
+            return False
+        if g[0] == 'num':
+            if g[1] != w[1] or not _same_term(g[2], w[2]):
+                return False
+        elif g[1] != w[1]:
+            return False
+    return True
+
+
 def _write_check(c, paths):
     """loop 4: output object j is sorted and written once, to file number j + jmin + 1, named in row j + jmin."""
     e0 = c.st.env
@@ -231,8 +304,16 @@ def _write_check(c, paths):
         from sedvc.extmodels import is_table
         pcol = s.heap[par.addr].attrs['@cols']['MODEL_NAME'] if is_table(s, par) else None
         obs.append((s, 'sorted_to_the_parameter_table_order', arg is not None and pcol is not None and (arg is pcol or getattr(arg, 'addr', 0) == getattr(pcol, 'addr', 1))))
-        tmpl, args = _fmt_arg(calls[1][3][0] if calls[1][3] else None)
-        obs.append((s, 'file_number_is_wavelength_index_plus_one', tmpl == '{0:s}/convolved/MO{1:03d}.fits' and len(args) == 2 and args[0] == e0['model_dir'] and _same_term(args[1], w1)))
+        # the file written is <model_dir>/convolved/MO<w1, three digits>.fits -- however the string is put together
+        md = e0['model_dir']
+        want = [pc for pc in (_pieces(md) if isinstance(md, (str, Opaque)) else [('str', repr(md))])] + [('lit', '/convolved/MO'), ('num', '03d', w1), ('lit', '.fits')]
+        merged = []
+        for pc in want:
+            if merged and pc[0] == 'lit' and merged[-1][0] == 'lit':
+                merged[-1] = ('lit', merged[-1][1] + pc[1])
+            else:
+                merged.append(pc)
+        obs.append((s, 'file_number_is_wavelength_index_plus_one', _same_string(calls[1][3][0] if calls[1][3] else None, merged)))
         # the row of the returned table
         filt = e0['filters']
         col0 = c.st.heap[filt.addr].attrs['@cols']['filter']
